@@ -264,17 +264,8 @@ func runC04(c *Ctx) {
 			if cv, isC := ConstCond(v); isC {
 				if !cv {
 					nFalse++
-					// must be on the ctx.Done case
-					okDone := false
-					for _, s := range Selects(slow) {
-						for _, cs := range SelectCases(s) {
-							if cs.State != nil && cs.Body.Dominates(b) {
-								if cl, _ := CallOfValue(cs.State.Chan); cl != nil && MatchCC(&cl.Call, sCtxDone) {
-									okDone = true
-								}
-							}
-						}
-					}
+					// must be on the ctx.Done case (a select case, ctx.Err() != nil, or a predicate helper that says so)
+					okDone := ctxDoneAt(b, 0)
 					c.Check(okDone, "O4.3", sk+":false-only-when-cancelled", r.Pos(), "IsSlowDown returns constant false only in the ctx.Done() case")
 				} else {
 					c.Bad("O4.3", sk+":window-comparison", r.Pos(), "IsSlowDown returns constant true")
@@ -310,8 +301,8 @@ func runC04(c *Ctx) {
 				return DerivesOnly(v, false, IsFieldLoadPred("instanceSharedDeps", "discardOverflow"))
 			}
 			isSlow := IsCallValue(-1, sIsSlowDown)
-			cnt := func(spec Spec, edges ...func(a, b *ssa.BasicBlock) bool) Interval {
-				return PathQuery{Fn: body, Start: w, Edge: AndEdges(append(edges, RestrictBool(waitOK, true))...), Exit: func(b *ssa.BasicBlock) bool { return ExitOf(b) == ExitReturn },
+			cnt := func(spec Spec, as ...Assumption) Interval {
+				return PathQuery{Fn: body, Start: w, Assume: append(as, Assumption{waitOK, true}), Exit: func(b *ssa.BasicBlock) bool { return ExitOf(b) == ExitReturn },
 					Weight: func(in ssa.Instruction) (int, int) {
 						if _, isCall := in.(*ssa.Call); isCall && IsCall(in, spec) {
 							return 1, 1
@@ -319,14 +310,14 @@ func runC04(c *Ctx) {
 						return 0, 0
 					}}.Count()
 			}
-			a := cnt(sShoot, RestrictBool(dov, false))
+			a := cnt(sShoot, Assumption{dov, false})
 			c.Check(a.Is(1, 1), "O4.4", bk+":discard-off-always-fires", w.Pos(), fmt.Sprintf("Shoot count with discard_overflow off = %v (want [1,1])", a))
-			a2 := cnt(sReport, RestrictBool(dov, false))
+			a2 := cnt(sReport, Assumption{dov, false})
 			c.Check(a2.Is(0, 0), "O4.4", bk+":discard-off-never-discards", w.Pos(), fmt.Sprintf("discard reports with discard_overflow off = %v (want [0,0])", a2))
-			b1 := cnt(sShoot, RestrictBool(dov, true), RestrictBool(isSlow, false))
+			b1 := cnt(sShoot, Assumption{dov, true}, Assumption{isSlow, false})
 			c.Check(b1.Is(1, 1), "O4.4", bk+":not-late-is-fired", w.Pos(), fmt.Sprintf("Shoot count with discard on and IsSlowDown false = %v (want [1,1])", b1))
-			b2 := cnt(sReport, RestrictBool(dov, true), RestrictBool(isSlow, true))
-			b3 := cnt(sShoot, RestrictBool(dov, true), RestrictBool(isSlow, true))
+			b2 := cnt(sReport, Assumption{dov, true}, Assumption{isSlow, true})
+			b3 := cnt(sShoot, Assumption{dov, true}, Assumption{isSlow, true})
 			c.Check(b2.Is(1, 1) && b3.Is(0, 0), "O4.4", bk+":late-is-discarded-not-fired", w.Pos(), fmt.Sprintf("discard on and IsSlowDown true: reports %v (want [1,1]), shots %v (want [0,0])", b2, b3))
 			// IsSlowDown is asked about the same waiter that waited, after the wait
 			for _, in := range Calls(body, sIsSlowDown) {
@@ -369,29 +360,10 @@ func runC04(c *Ctx) {
 						tagStored = true
 					}
 				}
-				cl, ok := in.(*ssa.Call)
-				if !ok {
-					return
+				kv, _ := constant.Int64Val(keyErrno)
+				if keyErrno != nil && sampleFieldSet(in, func(v ssa.Value) bool { k, isC := ConstInt(v); return isC && k == kv }, func(v ssa.Value) bool { k, isC := ConstInt(v); return isC && k == 777 }, 0) {
+					codeSet = true
 				}
-				sc := cl.Call.StaticCallee()
-				if sc == nil || RecvTypeName(CalleeObj(&cl.Call)) != "Sample" || len(cl.Call.Args) != 2 {
-					return
-				}
-				if k, isC := ConstInt(cl.Call.Args[1]); !isC || k != 777 {
-					return
-				}
-				// callee stores its parameter under keyErrno
-				EachInstr(sc, func(i2 ssa.Instruction) {
-					c2, ok := i2.(*ssa.Call)
-					if !ok || c2.Call.StaticCallee() == nil || c2.Call.StaticCallee().Name() != "set" || len(c2.Call.Args) != 3 {
-						return
-					}
-					k, isC := ConstInt(c2.Call.Args[1])
-					kv, _ := constant.Int64Val(keyErrno)
-					if isC && keyErrno != nil && k == kv && c2.Call.Args[2] == ssa.Value(sc.Params[1]) {
-						codeSet = true
-					}
-				})
 			})
 			c.Check(tagStored, "O4.5", dk+":tag", ds.Pos(), "the discarded sample carries the tag 'discarded'")
 			c.Check(codeSet, "O4.5", dk+":net-code", ds.Pos(), "the discarded sample's net code (errno field) is set to 777")
@@ -499,3 +471,129 @@ func derivesFromClock(v ssa.Value, depth int) bool {
 	}
 	return false
 }
+
+
+// ctxDoneAt: the block is reached only when a context is known to be done - it is dominated by the body of a select
+// case receiving from ctx.Done(), by the edge ctx.Err() != nil, or by the true edge of a boolean helper all of whose
+// `return true` are themselves so dominated (isDone(ctx)).
+func ctxDoneAt(b *ssa.BasicBlock, depth int) bool {
+	fn := b.Parent()
+	for _, s := range Selects(fn) {
+		for _, cs := range SelectCases(s) {
+			if cs.State != nil && cs.Body != nil && cs.Body.Dominates(b) {
+				if cl, _ := CallOfValue(cs.State.Chan); cl != nil && MatchCC(&cl.Call, sCtxDone) {
+					return true
+				}
+			}
+		}
+	}
+	if len(b.Instrs) == 0 {
+		return false
+	}
+	at := b.Instrs[0]
+	for _, f := range CmpFactsAt(at) {
+		if f.Op == token.NEQ {
+			for _, pr := range [][2]ssa.Value{{f.X, f.Y}, {f.Y, f.X}} {
+				if cl, _ := CallOfValue(pr[0]); cl != nil && IsNilConst(pr[1]) && cl.Call.IsInvoke() && cl.Call.Method.Name() == "Err" {
+					if p, n := NamedOf(cl.Call.Value.Type()); p == "context" && n == "Context" {
+						return true
+					}
+				}
+			}
+		}
+	}
+	if depth > 2 {
+		return false
+	}
+	for _, bf := range boolFactsLocal(b) {
+		cl, ok := bf.Subj.(*ssa.Call)
+		if !ok || !bf.Val {
+			continue
+		}
+		callee := cl.Call.StaticCallee()
+		if callee == nil || len(callee.Blocks) == 0 {
+			continue
+		}
+		allDone, nTrue := true, 0
+		for _, cb := range callee.Blocks {
+			ret, ok := cb.Instrs[len(cb.Instrs)-1].(*ssa.Return)
+			if !ok || len(ret.Results) != 1 {
+				continue
+			}
+			cv, isC := ConstCond(ret.Results[0])
+			if !isC {
+				allDone = false
+				continue
+			}
+			if cv {
+				nTrue++
+				if !ctxDoneAt(cb, depth+1) {
+					allDone = false
+				}
+			}
+		}
+		if allDone && nTrue > 0 {
+			return true
+		}
+	}
+	return false
+}
+
+// boolFactsLocal: the boolean facts fixed by the branches dominating the block.
+func boolFactsLocal(b *ssa.BasicBlock) []BoolFact {
+	if len(b.Instrs) == 0 {
+		return nil
+	}
+	return BoolFactsAt(b.Instrs[0])
+}
+
+
+// sampleFieldSet: the instruction stores a value satisfying val under an index satisfying key into the fields of a
+// netsample.Sample - directly (s.fields[k] = v), through set(k, v), or through a setter of Sample that passes its
+// arguments on (SetUserNet(v) -> set(keyErrno, v) -> fields[k] = v).
+func sampleFieldSet(in ssa.Instruction, key, val func(ssa.Value) bool, depth int) bool {
+	if st, ok := in.(*ssa.Store); ok {
+		if ia, ok := st.Addr.(*ssa.IndexAddr); ok && key(ia.Index) && val(st.Val) {
+			if fa, ok := ia.X.(*ssa.FieldAddr); ok {
+				if fv, _ := FieldOf(fa); fv != nil && fv.Name() == "fields" {
+					return true
+				}
+			}
+			if fv, _ := FieldOf(ia.X); fv != nil && fv.Name() == "fields" {
+				return true
+			}
+		}
+		return false
+	}
+	cl, ok := in.(*ssa.Call)
+	if !ok || depth > 3 {
+		return false
+	}
+	sc := cl.Call.StaticCallee()
+	if sc == nil || CalleeObj(&cl.Call) == nil || RecvTypeName(CalleeObj(&cl.Call)) != "Sample" || len(sc.Blocks) == 0 {
+		return false
+	}
+	keyPar, valPar := map[ssa.Value]bool{}, map[ssa.Value]bool{}
+	for i, a := range cl.Call.Args {
+		if i >= len(sc.Params) {
+			break
+		}
+		if key(a) {
+			keyPar[sc.Params[i]] = true
+		}
+		if val(a) {
+			valPar[sc.Params[i]] = true
+		}
+	}
+	found := false
+	k2 := func(v ssa.Value) bool { return keyPar[v] || isConstValue(v) && key(v) }
+	v2 := func(v ssa.Value) bool { return valPar[v] || isConstValue(v) && val(v) }
+	EachInstr(sc, func(i2 ssa.Instruction) {
+		if sampleFieldSet(i2, k2, v2, depth+1) {
+			found = true
+		}
+	})
+	return found
+}
+
+func isConstValue(v ssa.Value) bool { _, ok := v.(*ssa.Const); return ok }
